@@ -2881,6 +2881,30 @@ def check_C20(tier, seed, replay=None):
         for fn in files:
             if fn.endswith(".peg"):
                 cases.append(dict(id=len(cases) + 1, text=list(open(os.path.join(root, fn), "rb").read()), exp=EMPTY_AST))
+    # grammars of several thousand bytes with runs of multi-byte characters (in literals, classes and code blocks) lying across
+    # the offsets 4096, 8192, ...: a front-end that reads its source in chunks must not cut a character in two; four shifts
+    # of the same text so that every alignment of a 2-, 3- and 4-byte character with a chunk boundary occurs
+    def big_text(shift, kind):
+        runes = "\u00e9\u20ac\U0001F600\u00fc\u4e2d"
+        run_ = "".join(runes[(i * 7 + shift) % len(runes)] for i in range(260))
+        out, n = [" " * shift], 0
+        while sum(len(x.encode()) for x in out) < 9000:
+            size = sum(len(x.encode()) for x in out)
+            near = any(0 < b - size < 160 for b in (4096, 8192))
+            if near:
+                if kind == 0:
+                    out.append('L%d = "%s"i / \'x\'\n' % (n, run_))
+                elif kind == 1:
+                    out.append("L%d = [%s] 'y'\n" % (n, run_))
+                else:
+                    out.append('L%d = "a" { return "%s", nil }\n' % (n, run_))
+            else:
+                out.append('R%d = "k%d" R%d? / [a-z]+ "%s"\n' % (n, n, max(n - 1, 0), runes[n % len(runes)]))
+            n += 1
+        return "".join(out).encode()
+    for shift in range(4):
+        for kind in range(3):
+            cases.append(dict(id=len(cases) + 1, text=list(big_text(shift, kind)), exp=EMPTY_AST))
     ob = hook_astdump([dict(id=c["id"], text=c["text"], mode="bootstrap") for c in cases])
     op = hook_astdump([dict(id=c["id"], text=c["text"], mode="pigeon") for c in cases])
     obs = []
